@@ -59,7 +59,8 @@ CHECK = {
                      "P3R.Props.C04SchedBus", "P3R.Witness.C04SchedBus",
                      "P3R.Props.C04SchedWF", "P3R.Witness.C04SchedWF",
                      "P3R.Props.C04SchedCols", "P3R.Witness.C04SchedCols",
-                     "P3R.Props.EndToEnd", "P3R.Props.EndToEndReach", "P3R.Witness.EndToEnd"],
+                     "P3R.Props.EndToEnd", "P3R.Props.EndToEndReach", "P3R.Witness.EndToEnd",
+                     "P3R.Props.C04NoSkip", "P3R.Witness.C04NoSkip"],
     "theorems": ["P3R.C04.readers_agree", "P3R.C04.row_sat_add", "P3R.C04.row_sat_mul", "P3R.C04.row_sat_bool",
                  "P3R.C04.row_sat_muladd", "P3R.C04.row_sat_horner", "P3R.C04.accepted_alu_sat_partial", "P3R.C04.const_not_bound",
                  # composition: balanced bus + single creator (C09) + row constraints on cells => a satisfying assignment exists
@@ -130,10 +131,19 @@ CHECK = {
                  "P3R.Witness.EndToEnd.roundtrip_applies", "P3R.Witness.EndToEnd.run_evaluated",
                  "P3R.Witness.EndToEnd.tampered_not_accepted", "P3R.Witness.EndToEnd.gen_applies",
                  # Props/EndToEndReach: node 0 of every reachable program is the zero constant (assert_zero x = connect x 0 => v x = 0)
-                 "P3R.E2ER.Reachable.node0", "P3R.E2E.SourceSat.assert_zero_reachable", "P3R.Witness.EndToEnd.guards_from_reachability"],
+                 "P3R.E2ER.Reachable.node0", "P3R.E2E.SourceSat.assert_zero_reachable", "P3R.Witness.EndToEnd.guards_from_reachability",
+                 # Props/C04NoSkip: hnoskip ("no a/c operand of the role scan off the bus") derived for ReachablePrim programs from the shape run of the
+                 # compiled circuit (C02O.compile_shape_ok) + the b-column certificate (C09F.compile_defuse); ONE decidable syntactic hypothesis left
+                 # (lateFresh c.ops: no Const/Public row after the first ALU row carries a hint output's slot) -> the *_partial capstones
+                 "P3R.C04N.skip_iff", "P3R.C04N.alu_a_skip_iff", "P3R.C04N.noskip_of_cert", "P3R.C04N.exec_alu_gen", "P3R.C04N.cert_of_shape",
+                 "P3R.C04N.fuse_dshape", "P3R.C04N.fuse_ioUnread", "P3R.C04N.fuse_PreOk", "P3R.C04N.compile_noSkipCert_of_lateFresh",
+                 "P3R.C04N.compiled_no_skip_of_lateFresh", "P3R.C04N.compiled_no_skip_partial",
+                 "P3R.C04N.e2e_soundness_reachable_partial", "P3R.C04N.e2e_roundtrip_reachable_partial",
+                 "P3R.Witness.C04NoSkip.skip_occurs", "P3R.Witness.C04NoSkip.cert_on_example", "P3R.Witness.C04NoSkip.lateFresh_on_example",
+                 "P3R.Witness.C04NoSkip.no_skip_applies", "P3R.Witness.C04NoSkip.soundness_applies'", "P3R.Witness.C04NoSkip.lateFresh_needed"],
     "run": c04_run,
     "trusted_base": ["ideal STARK/LogUp: an accepted proof implies row constraints hold on some committed trace and the WitnessChecks bus is balanced as a signed multiset (DESIGN §2)"],
-    "assumptions": ["the Lean composition theorem holds for every extension degree D >= 1 (accepted_sat_gen: cells in the base field, D per operand, bus tuples (slot, v_0..v_{D-1}), coefficient-wise row constraints, relations in the extension ring L generated by a root alpha of the ALU's multiplication kind — KindRoot; accepted_sat is its D = 1 instance, accepted_sat_of_gen); accepted_sat(_gen) speaks about single-step Horner rows of the unscheduled abstract trace; the SCHEDULED table is covered by scheduled_accepted_sat_bus (Props/C04Sched, C04SchedBus): for sched = computeSchedule preps lanes kmax, the concrete preprocessed matrix prepRow = scheduledPrepRows (zero rows up to height H), ANY main-trace row function, (a) all of aluConstraints D lanes kmax kind vanishing on every window (r, r+1 mod H) and (b) the packed bus schedBus (other tables' cells + per scheduled entry what the table declares: packed rows send ONE b tuple with the summed multiplicity and nothing for the silent intermediate outputs) balanced as a signed multiset of D-tuples imply an assignment in the extension ring satisfying every op (single ops in every lane, chain starts after a separator via the F22 constraint, packed rows of every arity via C11.packed_window_sound_gen at ring level, cover by C11.computeSchedule_cover, bus by packed_tuple_net_gen + bus_single_valued_gen); the lane-0 discipline SchedWF of the schedule (Horner entries only on lane 0 below row 0, predecessor = previous chain entry or separator, packed arity in 2..K_max) is DERIVED from the model of compute_schedule for every op list, lanes >= 1 and K_max (computeSchedule_wf, Props/C04SchedWF: invariants of splitChains / fill_row / the chain loop; scheduled_accepted_sat_bus' has no SchedWF hypothesis); the integer-level reading hpk of the scheduler's two tests is DERIVED (hpk_of_tested, scheduled_accepted_sat_bus'', Props/C04SchedCols) from the per-op column encoding PrepBus (index columns = natK slot, multiplicity columns = images of eventMult; = what common.rs writes, read not modelled) when b slots have distinct images and non-zero out multiplicities non-zero images (natK_inj_below / intCast_zero_below: slot indices and read counts below the characteristic); aluInteractions on a row of the scheduled matrix is read entry by entry (aluInteractions_prepRow) and its tuples on single-op lanes / lane 0 of a packed row are the K-images of the integer interactions (lane_op_image, lane_packed_image: ONE b tuple with the image of the summed multiplicity, last step's out); its explicit hypotheses that are NOT derived: the images of the packed EXTRA tuples (later steps' (a, c) lookups) and the transfer of a K-valued balance to the integer tuple balance are not proved (hbal stays on integer multiplicities), the selector columns of op j encode its kind (PrepSel, = the 12->13 column conversion of common.rs), the integer-level reading hpk of the scheduler's two tests (equal b slot, intermediate out multiplicity 0; the K-valued columns b_idx / mult_out agree with it when slot indices and read counts stay below the characteristic), multiplicities are integers (the field-valued multiplicity columns of aluInteractions are their images), at most one creator per slot over the unpacked cells (C09.one_creator up to the schedule's permutation), MUL_ADD / HORNER ops carry a c operand; the row selector is one non-zero value `sel` (one-hot selectors of the preprocessed trace; window_lane_blocks ties the constraint vectors to aluConstraints); accepted_sat(_gen) assumes no ALU operand is off the bus (role `skip`; 0 of 36k generated rows in the C09 run) and that a Const row's cells denote the circuit's constant (false today: finding F4); the permutation rounds of the Poseidon tables are uninterpreted (control part modelled in Model/PoseidonCtl, tied by C11's run); recompose rows carry no constraint (F5b); END TO END (Props/EndToEnd, e2e_soundness / _gen / _scheduled): composed with C03 (compile_chain_sound_total) and C02 (lower_passes_check_ok) the satisfying assignment of the op list becomes an assignment to the source program's expressions satisfying every node relation / connect / assert — hypotheses: BState.Ok (every Reachable program), compile b = ok c, genPrep c = some p, the acceptance conditions, and hnoskip (no operand of the role scan off the bus: decidable on p, NOT derived from reachability); hornerChained and the well-formedness of the compiled ops are derived from compile (compile_ops_eq, compile_ops_wf)"],
+    "assumptions": ["the Lean composition theorem holds for every extension degree D >= 1 (accepted_sat_gen: cells in the base field, D per operand, bus tuples (slot, v_0..v_{D-1}), coefficient-wise row constraints, relations in the extension ring L generated by a root alpha of the ALU's multiplication kind — KindRoot; accepted_sat is its D = 1 instance, accepted_sat_of_gen); accepted_sat(_gen) speaks about single-step Horner rows of the unscheduled abstract trace; the SCHEDULED table is covered by scheduled_accepted_sat_bus (Props/C04Sched, C04SchedBus): for sched = computeSchedule preps lanes kmax, the concrete preprocessed matrix prepRow = scheduledPrepRows (zero rows up to height H), ANY main-trace row function, (a) all of aluConstraints D lanes kmax kind vanishing on every window (r, r+1 mod H) and (b) the packed bus schedBus (other tables' cells + per scheduled entry what the table declares: packed rows send ONE b tuple with the summed multiplicity and nothing for the silent intermediate outputs) balanced as a signed multiset of D-tuples imply an assignment in the extension ring satisfying every op (single ops in every lane, chain starts after a separator via the F22 constraint, packed rows of every arity via C11.packed_window_sound_gen at ring level, cover by C11.computeSchedule_cover, bus by packed_tuple_net_gen + bus_single_valued_gen); the lane-0 discipline SchedWF of the schedule (Horner entries only on lane 0 below row 0, predecessor = previous chain entry or separator, packed arity in 2..K_max) is DERIVED from the model of compute_schedule for every op list, lanes >= 1 and K_max (computeSchedule_wf, Props/C04SchedWF: invariants of splitChains / fill_row / the chain loop; scheduled_accepted_sat_bus' has no SchedWF hypothesis); the integer-level reading hpk of the scheduler's two tests is DERIVED (hpk_of_tested, scheduled_accepted_sat_bus'', Props/C04SchedCols) from the per-op column encoding PrepBus (index columns = natK slot, multiplicity columns = images of eventMult; = what common.rs writes, read not modelled) when b slots have distinct images and non-zero out multiplicities non-zero images (natK_inj_below / intCast_zero_below: slot indices and read counts below the characteristic); aluInteractions on a row of the scheduled matrix is read entry by entry (aluInteractions_prepRow) and its tuples on single-op lanes / lane 0 of a packed row are the K-images of the integer interactions (lane_op_image, lane_packed_image: ONE b tuple with the image of the summed multiplicity, last step's out); its explicit hypotheses that are NOT derived: the images of the packed EXTRA tuples (later steps' (a, c) lookups) and the transfer of a K-valued balance to the integer tuple balance are not proved (hbal stays on integer multiplicities), the selector columns of op j encode its kind (PrepSel, = the 12->13 column conversion of common.rs), the integer-level reading hpk of the scheduler's two tests (equal b slot, intermediate out multiplicity 0; the K-valued columns b_idx / mult_out agree with it when slot indices and read counts stay below the characteristic), multiplicities are integers (the field-valued multiplicity columns of aluInteractions are their images), at most one creator per slot over the unpacked cells (C09.one_creator up to the schedule's permutation), MUL_ADD / HORNER ops carry a c operand; the row selector is one non-zero value `sel` (one-hot selectors of the preprocessed trace; window_lane_blocks ties the constraint vectors to aluConstraints); accepted_sat(_gen) assumes no ALU operand is off the bus (role `skip`; 0 of 36k generated rows in the C09 run) and that a Const row's cells denote the circuit's constant (false today: finding F4); the permutation rounds of the Poseidon tables are uninterpreted (control part modelled in Model/PoseidonCtl, tied by C11's run); recompose rows carry no constraint (F5b); END TO END (Props/EndToEnd, e2e_soundness / _gen / _scheduled): composed with C03 (compile_chain_sound_total) and C02 (lower_passes_check_ok) the satisfying assignment of the op list becomes an assignment to the source program's expressions satisfying every node relation / connect / assert — hypotheses: BState.Ok (every Reachable program), compile b = ok c, genPrep c = some p, the acceptance conditions, and hnoskip (no operand of the role scan off the bus: decidable on p; for ReachablePrim programs DERIVED in Props/C04NoSkip — compiled_no_skip_partial, e2e_soundness_reachable_partial — from the shape run of the compiled circuit and the def-before-use certificate, up to ONE decidable syntactic hypothesis lateFresh c.ops: no Const/Public row placed after the first ALU row carries a hint output's slot; true of every lowering by construction, its proof through emit_operations is not threaded; Witness.C04NoSkip.lateFresh_needed shows it cannot be dropped at list level); hornerChained and the well-formedness of the compiled ops are derived from compile (compile_ops_eq, compile_ops_wf)"],
 }
 
 MANIFEST_ENTRY = {
